@@ -696,6 +696,28 @@ fn check_doc(ctx: &Ctx, ty: Ty, doc: &TV) -> Check {
 }
 
 /// One valid document and all of its mutations.
+/// a typed layer metadata that no generated document satisfies: the struct layer API then takes its fallback path
+/// (generic re-read of the restored `<layer>.toml`, then the invalid-metadata decision)
+#[derive(serde::Serialize, serde::Deserialize, Clone, Debug)]
+struct NeverMatches {
+    verif_required_field_q7: String,
+}
+
+/// The text as the restored `<layer>.toml` of an existing layer, requested through `BuildContext::cached_layer` with a
+/// metadata type that does not match and the decision "delete the layer". Ok(()) = the request succeeded.
+fn request_restored_layer(text: &str) -> Result<(), String> {
+    use libcnb::layer::{CachedLayerDefinition, InvalidMetadataAction, RestoredLayerAction};
+    let scratch = crate::core::Scratch::new(&format!("c08l-{}", crate::core::uniq()));
+    let bc = crate::layermodel::make_context(&scratch.path);
+    std::fs::create_dir_all(bc.layers_dir.join("restored")).unwrap();
+    std::fs::write(bc.layers_dir.join("restored.toml"), text).unwrap();
+    let r = bc.cached_layer(
+        libcnb::data::layer_name!("restored"),
+        CachedLayerDefinition { build: true, launch: true, invalid_metadata_action: &|_| InvalidMetadataAction::DeleteLayer, restored_layer_action: &|_: &NeverMatches, _| RestoredLayerAction::KeepLayer },
+    );
+    r.map(|_| ()).map_err(|e| format!("{e:?}"))
+}
+
 fn check_doc_acc(ctx: &Acc, ty: Ty, doc: &TV) -> Check {
     let name = ty_name(ty);
     let text = emit_doc(doc);
@@ -712,6 +734,13 @@ fn check_doc_acc(ctx: &Acc, ty: Ty, doc: &TV) -> Check {
             let want = normalise_expected(ty, doc);
             ensure!(got.sem_eq(&want), format!("C08:{name}:value-differs"), "parsed {got:?}\nexpected {want:?}\n{text}");
         }
+    }
+    // the same document as a restored layer file read by the struct layer API (control for the mutations below)
+    if ty == Ty::Lcm {
+        if let Err(e) = request_restored_layer(&text) {
+            return Err(Fail::new("C08:LayerContentMetadata:valid-restored-layer-file-refused", format!("{e}\n{text}")));
+        }
+        ctx.class("lcm:valid-restored-layer-file-through-cached_layer");
     }
     // mutations
     let mut muts = vec![];
@@ -785,7 +814,13 @@ fn check_doc_acc(ctx: &Acc, ty: Ty, doc: &TV) -> Check {
             (Want::Accept(_), Err(e)) => {
                 return Err(Fail::new(format!("C08:{name}:control-rejected"), format!("{kind_name} at {:?}: {e}\n{mtext}", m.path)));
             }
-            (Want::Reject, Err(_)) => {}
+            (Want::Reject, Err(_)) => {
+                // a restored <layer>.toml goes through further readers: the struct layer API must refuse it as well
+                if ty == Ty::Lcm {
+                    ctx.class("lcm:mutated-restored-layer-file-through-cached_layer");
+                    ensure!(request_restored_layer(&mtext).is_err(), "C08:LayerContentMetadata:mutation-accepted-by-struct-layer-api", "mutation {kind_name} at {:?}: cached_layer (metadata type not matching, decision DeleteLayer) succeeded on\n{mtext}", m.path);
+                }
+            }
         }
     }
     Ok(())
@@ -796,7 +831,7 @@ fn ty_from_name(s: &str) -> Ty {
 }
 
 pub fn run(ctx: &Ctx) {
-    ctx.set_rule("valid documents for ComponentBuildpackDescriptor, CompositeBuildpackDescriptor, BuildpackDescriptor (from component and composite documents), BuildpackPlan, LayerContentMetadata, Launch, Store, PackageDescriptor generated from the harness's own schema of the spec (every optional key present with probability 1/2, 0..3 array-of-table elements, nested free-form metadata, nasty strings) and emitted by the harness's emitter; for each document EVERY single-point mutation: unknown key in each table and array-of-tables element outside metadata, deletion of each required key, retyping of each scalar/array/table (an array of tables also as one plain table holding its first element), adding order/targets/stacks (also as zero-length arrays), inserting a key that the format defines for a different table, respelling each key of the table (clear-env -> clear_env / clearEnv / Clear-env, keywords -> keyword, os -> oss; renamed when present, inserted when absent); negative control: unknown key inside metadata. Oracle: valid => accepted, classified, values equal with spec defaults filled; mutation => rejected (with the composite/component classification rules). Non-trivial: mutation applied below the top level of a document that has at least one array-of-tables element; distinct = hash of the mutated text.");
+    ctx.set_rule("valid documents for ComponentBuildpackDescriptor, CompositeBuildpackDescriptor, BuildpackDescriptor (from component and composite documents), BuildpackPlan, LayerContentMetadata, Launch, Store, PackageDescriptor generated from the harness's own schema of the spec (every optional key present with probability 1/2, 0..3 array-of-table elements, nested free-form metadata, nasty strings) and emitted by the harness's emitter; for each document EVERY single-point mutation: unknown key in each table and array-of-tables element outside metadata, deletion of each required key, retyping of each scalar/array/table (an array of tables also as one plain table holding its first element), adding order/targets/stacks (also as zero-length arrays), inserting a key that the format defines for a different table, respelling each key of the table (clear-env -> clear_env / clearEnv / Clear-env, keywords -> keyword, os -> oss; renamed when present, inserted when absent); negative control: unknown key inside metadata. Oracle: valid => accepted, classified, values equal with spec defaults filled; mutation => rejected (with the composite/component classification rules); LayerContentMetadata documents are additionally planted as the restored <layer>.toml of an existing layer and requested through BuildContext::cached_layer with a metadata type that does not match and the decision DeleteLayer: valid => the request succeeds, mutated => it fails. Non-trivial: mutation applied below the top level of a document that has at least one array-of-tables element; distinct = hash of the mutated text.");
     ctx.assume("store.toml without [metadata] is not generated (spec silent); a component document that already has an empty targets/stacks list plus an added order is not judged");
     for (_p, v) in ctx.regress_files() {
         replay(ctx, "", &v["case"]);
